@@ -20,6 +20,10 @@ FIXED = [
   "stream_binary_search index=N on a stream without active filters searched the empty filtered list and always returned position 0", "replays/examples/C16-lookup-unfiltered.json"),
  ("KF-C16-4", "C16", "C16-query-ends-before-parsing-finished", "fix: remote queries are done only once the parser has finished",
   "a query sent while the file was still being parsed was declared finished in the first server loop iteration without new messages (e.g. before the first batch arrived): unfiltered query with window [1,34) on a 3-message file received 0 of 2 messages", "replays/examples/C16-query-ends-before-parsed.json"),
+ ("KF-C16-5", "C16", "C16-time-lookup-ties", "fix: remote time lookup returns the first of several msgs",
+  "stream_binary_search time_ms=T used binary_search_by, which returns any of several messages with the same calculated time: in an 88-message stream whose positions 51..87 share one time the lookup returned 87 where the first message not before T is at 51", "replays/examples/C16-time-lookup-ties.json"),
+ ("KF-C16-6", "C16", "C16-index-lookup-sorted-filtered", "fix: remote index lookup in sorted, filtered streams",
+  "stream_binary_search index=N on a filtered stream of a file opened with sort:true searched the filtered messages by calculated time; with two messages of equal calculated time (a duplicated message) the lookup of message 0 returned position 1", "replays/examples/C16-index-lookup-sorted.json"),
  ("KF-C15-1", "C15", "C15-stream-search-without-params", "fix: remote stream_search without search params",
   "'stream_search <id>' for an existing stream without a JSON body panicked (params.split_once(' ').unwrap()) and killed the connection thread", None),
  ("KF-C15-2", "C15", "C15-one-pass-stream-after-drain", "fix: remote rejects new streams in one_pass_streams mode",
